@@ -153,8 +153,39 @@ def normalise_dispatch(tree: ast.Module) -> list[str]:
     p.visit(tree)
     a = AliasInliner()
     a.visit(tree)
+    f = FlattenLoopNormaliser()
+    f.visit(tree)
     ast.fix_missing_locations(tree)
-    return t.log + p.log + a.log
+    return t.log + p.log + a.log + f.log
+
+
+class FlattenLoopNormaliser(ast.NodeTransformer):
+    """`for X in E: yield from X` (nothing else in the loop, no else) is
+    `yield from itertools.chain.from_iterable(E)`: the spelling the rules
+    about ordered flattening are written for."""
+
+    def __init__(self):
+        self.log: list[str] = []
+
+    def visit_For(self, node: ast.For):
+        self.generic_visit(node)
+        if len(node.body) == 1 and not node.orelse and isinstance(
+                node.target, ast.Name) and isinstance(
+                    node.body[0], ast.Expr) and isinstance(
+                        node.body[0].value, ast.YieldFrom) and isinstance(
+                            node.body[0].value.value, ast.Name) and \
+                node.body[0].value.value.id == node.target.id and isinstance(
+                    node.iter, ast.Call):
+            self.log.append(f"L{node.lineno}: for/yield-from loop read as "
+                            "chain.from_iterable")
+            new = ast.Expr(value=ast.YieldFrom(value=ast.Call(
+                func=ast.Attribute(value=ast.Attribute(
+                    value=ast.Name(id="itertools", ctx=ast.Load()),
+                    attr="chain", ctx=ast.Load()),
+                    attr="from_iterable", ctx=ast.Load()),
+                args=[node.iter], keywords=[])))
+            return ast.copy_location(new, node)
+        return node
 
 
 class Dispatch:
